@@ -19,6 +19,11 @@ chk("C07",
     TRUST + "BB-EXHAUST assumes dependency calls succeed and stored records are well-formed. Not decided: general panic freedom (address parsing, negative coins, bank failures, gas).",
     "abstract path exploration over go/ssa with a finite value domain (nil/non-nil, enum constants) + per-call-site error-propagation obligations + dominance/provenance for divisors", "DESIGN.md section 4 C07")
 
+chk("C17",
+    "Structural necessary conditions: (HK-DISPATCH, 10 siblings) each multi-listener method ranges over the whole receiver, invokes the same-named method on every element with its own parameters in order, leaves the loop early only on the element's error and returns it; (HK-WRAP, 10) each keeper wrapper invokes the same-named method of the registered listener exactly once on every non-failing path, with unchanged arguments, and returns its error; (HK-SITE, 10 sites) in each operation the wrapper is called exactly once on every non-failing path, outside loops, before (After…: after) the store write / transfer it announces, and every argument is the corresponding field of the record that is written (value-flow equality of provenance terms); (HK-CHAIN) on all call chains from a hook to a message handler or the block hook a failing callee fails the caller. Sibling cross-checking and path rules quantify over every hook, listener position and operation at once.",
+    TRUST + "Not decided: listener behaviour; depinject registration of listeners; 'effects uncommitted' relies on SDK message atomicity once the handler returns the error (which is decided).",
+    "sibling cross-check + effect automaton over abstract paths (exactly-once / ordering) + provenance-term equality of hook arguments and written record", "DESIGN.md section 4 C17")
+
 PENDING = {}  # property -> reason (kept current as checks are added)
 ALL = ["C%02d" % i for i in range(1, 21)]
 for p in ALL:
